@@ -53,7 +53,7 @@ Encodable(m) == HeaderEncodable(m) /\ ChainEncodable(m.payloads)
 Canonical(b) ==
   LET r == ParseW(b) IN
   /\ r.ok /\ ~HasUnk(r.v.payloads) /\ ChainRepresentable(r.v.payloads) /\ ChainRsvZero(r.v.payloads)
-  /\ LET d == StripMsg(r.v) IN Encodable(d) /\ Norm(d) = d
+  /\ LET d == StripMsg(r.v) IN Encodable(d) /\ Norm(d) = d /\ EncMsg(d) = b
 
 \* what the reference says about a datagram handed to a decoder
 \*   "value"    : well-formed, representable, encodable  => the decoder must return exactly .v (up to Eq)
